@@ -142,6 +142,11 @@ def _source(text):
     return sut.source_for(text, route)
 
 
+def _on(text):
+    """MAC checking ENABLED - as the object True, or (one case in five) as another truthy value, as Python callers do"""
+    return True if len(text) % 5 else 1
+
+
 def read_content(base, text, decryptors, key_override=None):
     """-> content tuple or the exception raised."""
     import io
@@ -150,10 +155,10 @@ def read_content(base, text, decryptors, key_override=None):
         if base["framing"] == "bf3":
             key = key_override if key_override is not None else base["key"]
             kw = {} if key is None else {"session_key": key}
-            f = sut.Bf3File.read_file(_source(text), check_cmac=True, **kw)
+            f = sut.Bf3File.read_file(_source(text), check_cmac=_on(text), **kw)
             sk = None
         else:
-            g = sut.Bec2File.read_file(_source(text), decryptors, check_cmac=True)
+            g = sut.Bec2File.read_file(_source(text), decryptors, check_cmac=_on(text))
             f, sk = g.bf3file, bytes(g.session_key)
             LAST_BLOCKS[:] = [repr(sorted(sut.obs_authblock(ab).items())) for ab in g.auth_blocks.values()]
     except Exception as e:
